@@ -10,6 +10,7 @@ import GrinVerif.Model.ChainOrphans
 import GrinVerif.Model.ChainReset
 import GrinVerif.Model.ChainKnown
 import GrinVerif.Model.ChainSizes
+import GrinVerif.Model.ChainBodyOrder
 /-! Driver glue for the `chain` domain: block tree definitions shared by all subject chains,
 one model `Node` per subject. -/
 namespace GV.Drv.ChainD
@@ -206,7 +207,7 @@ def handle (st : St) (args : List String) (impl : String) : St × Verdict :=
   | "blk" :: b :: rest =>
     match parseBlk b rest, parseClaims rest with
     | some blk, some inf =>
-      let blk1 := (blk.withInputFeatures st.outs inf).withNrdDupCheck
+      let blk1 := ((blk.withInputFeatures st.outs inf).withNrdDupCheck).withBodyOrder
       -- `osz=` / `ksz=`: the leaf counts the header claims (Model/ChainSizes.lean)
       match (kv rest "osz").bind String.toNat?, (kv rest "ksz").bind String.toNat? with
       | some co, some ck =>
